@@ -71,6 +71,7 @@ func init() {
 		p := e.path
 		if p.now == nil {
 			p.now = e.symScalar("now.unix", 64)
+			p.now0 = p.now
 			// the clock is assumed to lie in 2001..2049 (UTCTime cannot represent 2050 and later:
 			// the library's attribute encoder panics then; outside the claim)
 			e.Assume(e.tb.And(e.tb.Sle(e.tb.I64(978307200), p.now), e.tb.Slt(p.now, e.tb.I64(2524608000))))
@@ -273,4 +274,24 @@ func init() {
 type parsedTime struct {
 	bytes   []*Term
 	withSec bool
+}
+
+// advanceClock is called by slow dependencies (the signer): afterwards time.Now() may return a
+// later instant.  The scalar "sign.slow" says whether the wall clock crossed a second boundary
+// (natively the harness signer then sleeps until the next second).
+func (e *Eng) advanceClock() {
+	p := e.path
+	tb := e.tb
+	slow := e.symScalar("sign.slow", 8)
+	e.Assume(tb.Ule(slow, tb.Const(8, 1)))
+	if p.now == nil {
+		e.Assume(tb.Eq(slow, tb.Const(8, 0))) // nobody looked at the clock yet; the first reading is arbitrary anyway
+		return
+	}
+	p.uniq++
+	next := tb.Var(fmt.Sprintf("now.unix!%d", p.uniq), 64)
+	e.assertPC(tb.And(tb.Sle(p.now, next), tb.Slt(next, tb.I64(2524608000)),
+		tb.Implies(tb.Eq(slow, tb.Const(8, 0)), tb.Eq(next, p.now)),
+		tb.Implies(tb.Eq(slow, tb.Const(8, 1)), tb.Slt(p.now, next))))
+	p.now = next
 }
